@@ -30,7 +30,7 @@ import (
 	"github.com/dolthub/dolt/go/zzverif/vt"
 )
 
-const c14Rule = "base (0..22000 entries; part `wide` is the wide-row flavour: 300-900 rows with values padded to a drawn band between 120 and 850 bytes (6-15 rows per leaf), runs of up to 6-120 keys, 10-40 edits per side, one side shifting chunk boundaries by deletes/inserts/size-changing updates at leaf ends and their neighbours, the other making point edits there; one in five cut right after a leaf boundary, with a hot window on its end), left and right by independent drawn edit scripts (single puts/deletes in 3 shared hot windows and one private window per side, contiguous runs of up to 500 deleted or inserted keys, edits at leaf boundaries of the base, plus 0-4 explicit both-sided edits of one hot key, and on cut bases an append past the end on one side against a delete of the last keys on the other) or by a drawn special shape (one side unchanged, one side emptied, both sides identical, a common script on both sides first); sides built through MutableMap from the base tree or in bulk; collision handler drawn from {always conflict, take left, take right, field-wise combine (delete wins), conflict on odd keys else take right}. A key-wise model gives the expected map and the expected set of divergent keys. Compared: prolly.MergeMaps result and handler invocations (key, both diffs' from/to/type); tree.PatchGeneratorFromRoots+SendPatches+ApplyPatches on the left root (same root as MergeMaps, same invocations); every tree.ThreeWayDiffer output (op, key, base/left/right/merged) and its resolve-callback invocations; root hash of the merged map vs a bulk build of the expected content. Non-trivial: at least one divergent key, at least one range patch (level>0) sent for the right side, and base height>=2; distinct by hash of (schema, size, shape, scripts, handler)."
+const c14Rule = "base (0..22000 entries; part `wide` is the wide-row flavour: 300-900 rows with values padded to a drawn band between 120 and 850 bytes (6-15 rows per leaf), runs of up to 6-120 keys, 10-40 edits per side, one side shifting chunk boundaries by deletes/inserts/size-changing updates at leaf ends and their neighbours, the other making point edits there; one in five cut right after a leaf boundary, with a hot window on its end), left and right by independent drawn edit scripts (single puts/deletes in 3 shared hot windows and one private window per side, contiguous runs of up to 500 deleted or inserted keys, edits at leaf boundaries of the base, plus 0-4 explicit both-sided edits of one hot key, and a tail shape: one side deletes the last keys, the other appends past the end / edits inside that tail, both edit shortly before it) or by a drawn special shape (one side unchanged, one side emptied, both sides identical, a common script on both sides first); sides built through MutableMap from the base tree or in bulk; collision handler drawn from {always conflict, take left, take right, field-wise combine (delete wins), conflict on odd keys else take right}. A key-wise model gives the expected map and the expected set of divergent keys. Compared: prolly.MergeMaps result and handler invocations (key, both diffs' from/to/type); tree.PatchGeneratorFromRoots+SendPatches+ApplyPatches on the left root (same root as MergeMaps, same invocations); every tree.ThreeWayDiffer output (op, key, base/left/right/merged) and its resolve-callback invocations; root hash of the merged map vs a bulk build of the expected content. Non-trivial: at least one divergent key, at least one range patch (level>0) sent for the right side, and base height>=2; distinct by hash of (schema, size, shape, scripts, handler)."
 
 type c14Handler int
 
@@ -240,7 +240,8 @@ func c14Case(t *rapid.T, rec *vh.Recorder, wideOnly bool) {
 		// one side shifts chunk boundaries (deletes / inserts / size-changing updates at leaf
 		// ends and their neighbours), the other makes point edits there
 		// (style 0/1), or both sides edit uniformly spread keys (2), or both sides shift (3)
-		wideStyle = rapid.IntRange(0, 3).Draw(t, "wideStyle")
+		// or both sides delete contiguous runs spanning several leaves (4)
+		wideStyle = rapid.IntRange(0, 4).Draw(t, "wideStyle")
 		switch wideStyle {
 		case 0:
 			gl.pointOnly = true
@@ -251,13 +252,27 @@ func c14Case(t *rapid.T, rec *vh.Recorder, wideOnly bool) {
 	shapeKind := rapid.IntRange(0, 11).Draw(t, "shape")
 	var ls, rs []c12Edit
 	var sname string
+	// tail shape (see below): decided here because it keeps the other edits few
+	tailShape := false
+	if shapeKind >= 5 && B.Len() > 0 {
+		if cutBase {
+			tailShape = rapid.Bool().Draw(t, "tailOps")
+		} else {
+			tailShape = rapid.IntRange(0, 3).Draw(t, "tailOpsUncut") == 0
+		}
+	}
 	side := func(g *c12EditGen, label string, d *vt.Dict) []c12Edit {
+		if tailShape && rapid.IntRange(0, 3).Draw(t, label+".quiet") > 0 {
+			return g.script(t, label, d, bounds, rapid.IntRange(0, 3).Draw(t, label+".nops"), weights)
+		}
 		if w.wide {
 			wt := [8]int{2, 1, 2, 3, 1, 1, 1, 9}
 			if g.pointOnly {
 				wt = [8]int{1, 0, 4, 0, 0, 0, 0, 6}
 			} else if wideStyle == 2 {
 				wt = [8]int{1, 6, 5, 5, 0, 1, 1, 2}
+			} else if wideStyle == 4 {
+				wt = [8]int{1, 3, 4, 4, 0, 5, 0, 1}
 			}
 			return g.script(t, label, d, bounds, rapid.IntRange(10, 40).Draw(t, label+".nops"), wt)
 		}
@@ -306,29 +321,98 @@ func c14Case(t *rapid.T, rec *vh.Recorder, wideOnly bool) {
 		ls = side(gl, "l", L)
 		rs = side(gr, "r", R)
 	}
-	// on a base that ends on a natural boundary: one side appends past the end, the other
-	// deletes the last keys (the patch for the last node of a level is the special case of
-	// getNextAndSplitIfAtEnd)
-	if cutBase && shapeKind >= 5 && rapid.Bool().Draw(t, "tailOps") {
+	// tail shape: one side deletes the last keys of the map (its last leaf then ends early), the
+	// other side keeps keys behind that point (appends past the end, inserts or updates inside the
+	// deleted tail), and both sides edit a few keys shortly before the tail so that overlapping
+	// range patches have to be split there. The patch for the last node of a level is the special
+	// case of getNextAndSplitIfAtEnd.
+	if tailShape {
 		if p, ok := c12PosOf(ks.Kinds[0], B.E[B.Len()-1].K[0]); ok {
-			m := rapid.IntRange(1, 400).Draw(t, "tailAppend")
-			k := rapid.IntRange(1, 50).Draw(t, "tailDelete")
+			maxDel, maxApp := 400, 400
+			if w.wide {
+				maxDel, maxApp = 60, 20
+			}
+			m := rapid.IntRange(0, maxApp).Draw(t, "tailAppend")
+			k := rapid.IntRange(1, maxDel).Draw(t, "tailDelete")
+			if k > B.Len() {
+				k = B.Len()
+			}
+			inside := rapid.IntRange(0, 4).Draw(t, "tailInside")
+			before := rapid.IntRange(0, 3).Draw(t, "tailBefore")
 			ad, ag, ae, dd, dg, de := L, gl, &ls, R, gr, &rs
 			if rapid.Bool().Draw(t, "tailAppendOnRight") {
 				ad, ag, ae, dd, dg, de = R, gr, &rs, L, gl, &ls
 			}
-			for i := 1; i <= m; i++ {
-				kk, vv := w.keyAt(p+i, (p+i)%4), w.valAt(i)
-				ad.Put(kk, vv)
-				*ae = append(*ae, c12Edit{K: kk, V: vv})
+			put := func(d *vt.Dict, es *[]c12Edit, kk, vv vt.Row) {
+				d.Put(kk, vv)
+				*es = append(*es, c12Edit{K: kk, V: vv})
 			}
-			ag.note("append %d past the end", m)
-			for i := 0; i < k && i < B.Len(); i++ {
+			for i := 1; i <= m; i++ {
+				put(ad, ae, w.keyAt(p+i, (p+i)%4), w.valAt(i))
+			}
+			for i := 0; i < k; i++ {
 				kk := B.E[B.Len()-1-i].K
 				dd.Delete(kk)
 				*de = append(*de, c12Edit{K: kk, Del: true})
 			}
-			dg.note("delete the last %d base keys", k)
+			for i := 0; i < inside; i++ {
+				label := fmt.Sprintf("tailIn%d", i)
+				j := B.Len() - 1 - rapid.IntRange(0, k-1).Draw(t, label+".back")
+				kk := B.E[j].K
+				if q, ok := c12PosOf(ks.Kinds[0], kk[0]); ok && rapid.Bool().Draw(t, label+".insert") {
+					kk = w.keyAt(q+1, 0)
+				}
+				put(ad, ae, kk, w.genVal(t, label+".v"))
+			}
+			// the deleting side also removes a short run some leaves before the tail (the leaves
+			// after that run keep their rows but get shifted boundaries until the tree resynchronises)
+			shift := rapid.IntRange(0, 30).Draw(t, "tailShiftRun")
+			shiftBack := rapid.IntRange(5, 150).Draw(t, "tailShiftBack")
+			if j0 := B.Len() - k - shiftBack - shift; shift > 0 && j0 >= 0 {
+				for i := 0; i < shift; i++ {
+					kk := B.E[j0+i].K
+					dd.Delete(kk)
+					*de = append(*de, c12Edit{K: kk, Del: true})
+				}
+			}
+			// ... and the other side edits one key shortly after that run, inside the shifted leaves
+			if j0 := B.Len() - k - shiftBack - shift; shift > 0 && j0 >= 0 {
+				span := 400
+				if w.wide {
+					span = 25
+				}
+				j := j0 + shift + rapid.IntRange(0, span).Draw(t, "tailAfterRun")
+				if j < B.Len()-k {
+					kk := B.E[j].K
+					if q, ok := c12PosOf(ks.Kinds[0], kk[0]); ok && rapid.Bool().Draw(t, "tailAfterRun.insert") {
+						kk = w.keyAt(q+1, 0)
+					}
+					put(ad, ae, kk, w.genVal(t, "tailAfterRun.v"))
+				}
+			}
+			beforeBoth := rapid.Bool().Draw(t, "tailBeforeBoth")
+			for i := 0; i < before; i++ {
+				for si, sd := range []struct {
+					d  *vt.Dict
+					es *[]c12Edit
+				}{{ad, ae}, {dd, de}} {
+					if si == 1 && !beforeBoth {
+						continue
+					}
+					label := fmt.Sprintf("tailBefore%d.%d", i, si)
+					j := B.Len() - 1 - k - rapid.IntRange(0, shiftBack).Draw(t, label+".back")
+					if j < 0 {
+						continue
+					}
+					kk := B.E[j].K
+					if q, ok := c12PosOf(ks.Kinds[0], kk[0]); ok && rapid.Bool().Draw(t, label+".insert") {
+						kk = w.keyAt(q+1, 0)
+					}
+					put(sd.d, sd.es, kk, w.genVal(t, label+".v"))
+				}
+			}
+			ag.note("tail: append %d past the end, %d edits inside the last %d keys, %d edits before them", m, inside, k, before)
+			dg.note("tail: delete the last %d base keys and a run of %d keys %d before them, %d edits before the tail (both sides: %v)", k, shift, shiftBack, before, beforeBoth)
 		}
 	}
 	// explicit both-sided edits of one key (different values, same value, or delete vs modify)
@@ -735,10 +819,71 @@ func c14Case(t *rapid.T, rec *vh.Recorder, wideOnly bool) {
 	if cutBase {
 		cl = append(cl, "base_ends_on_boundary")
 	}
+	if tailShape {
+		cl = append(cl, "tail_shape")
+	}
 	nontrivial := nDiv > 0 && rangePatches > 0 && baseM.Height() >= 2
 	desc := fmt.Sprintf("%s k=%v v=%v n=%d base{%s} %s handler=%v left{%s} right{%s} => left-only=%d right-only=%d convergent=%d divergent=%d patches=%d range=%d",
 		flavor, ks, vs, n, c12Join(gb.ops, 8), sname, h, c12Join(gl.ops, 14), c12Join(gr.ops, 14), nLeft, nRight, nConv, nDiv, len(patches), rangePatches)
 	rec.Case(desc, nontrivial, cl...)
+}
+
+// c14WideFinding is the known-findings id of "the patch-based merge keeps the right side's last
+// leaf as a chunk although the left side has rows behind it": SendPatches takes the patch that
+// PatchGenerator.split returns without the last-node-of-a-level guard of getNextAndSplitIfAtEnd.
+const c14WideFinding = "C14-wide-row-merge-non-canonical"
+
+// c14PinnedTailCase is the minimised shape of that finding (found by a randomized search over
+// 600 rows of ~510 bytes, 30 edits per side): base keys 2,4..1200 (uint32) with values
+// (uint32, 500 x 'x'); left inserts 1107 and 1187; right deletes 1050..1076 and 1178..1200.
+func c14PinnedTailCase() (merged, bulk string, sameRows bool, err error) {
+	ks := vt.NewSchema([]vt.Kind{vt.KUint32}, []bool{false})
+	vs := vt.NewSchema([]vt.Kind{vt.KUint32, vt.KString}, []bool{true, true})
+	w := c12NewWorld(ks, vs)
+	pad := strings.Repeat("x", 500)
+	row := func(v uint32) vt.Row { return vt.Row{v, pad} }
+	var es []vt.Entry
+	for i := 1; i <= 600; i++ {
+		es = append(es, vt.Entry{K: vt.Row{uint32(2 * i)}, V: row(uint32(i))})
+	}
+	B := vt.FromSorted(es)
+	L, R := B.Clone(), B.Clone()
+	L.Put(vt.Row{uint32(1107)}, row(1000817))
+	L.Put(vt.Row{uint32(1187)}, row(1000667))
+	for k := uint32(1050); k <= 1076; k += 2 {
+		R.Delete(vt.Row{k})
+	}
+	for k := uint32(1178); k <= 1200; k += 2 {
+		R.Delete(vt.Row{k})
+	}
+	exp := R.Clone()
+	exp.Put(vt.Row{uint32(1107)}, row(1000817))
+	exp.Put(vt.Row{uint32(1187)}, row(1000667))
+	bm, err := w.bulk(B)
+	if err != nil {
+		return
+	}
+	lm, err := w.applyMut(bm, c12SortedNet(B, L), 0, 0)
+	if err != nil {
+		return
+	}
+	rm, err := w.applyMut(bm, c12SortedNet(B, R), 0, 0)
+	if err != nil {
+		return
+	}
+	m, _, err := prolly.MergeMaps(w.ctx, lm, rm, bm, func(l, r tree.Diff) (tree.Diff, bool) { return tree.Diff{}, false })
+	if err != nil {
+		return
+	}
+	got, err := w.readMap(m)
+	if err != nil {
+		return
+	}
+	em, err := w.bulk(exp)
+	if err != nil {
+		return
+	}
+	return m.HashOf().String(), em.HashOf().String(), entriesEqual(got, exp.E), nil
 }
 
 func TestVerif_C14(t *testing.T) {
@@ -747,6 +892,28 @@ func TestVerif_C14(t *testing.T) {
 		"the collision handler returns its resolution as Diff{Key: left.Key, From: left.From, To: resolved value or nil for delete}, the way merge_prolly_rows.go does",
 		"handler invocations are compared as a set with exactly-once (their order is not part of the property)")
 	defer rec.Write(t)
+	knownTail := false
+	t.Run("pinned_tail_after_split", func(t *testing.T) {
+		merged, bulk, same, err := c14PinnedTailCase()
+		if err != nil {
+			t.Fatalf("pinned case: %v", err)
+		}
+		if !same {
+			vh.NoteViolation(t.Name(), "", `{"case":"c14PinnedTailCase","failure":"merged rows differ from the key-wise model"}`)
+			t.Fatalf("pinned case: merged rows differ from the model")
+		}
+		if merged != bulk {
+			what := fmt.Sprintf("base keys 2..1200 (600 rows of ~510 bytes), left inserts 1107 and 1187, right deletes 1050..1076 and 1178..1200: MergeMaps gives the expected rows but root %s, their bulk build is %s (right's last leaf ..1176 is kept as a chunk although left's 1187 follows)", merged, bulk)
+			if vh.OpenFinding("C14", c14WideFinding) {
+				vh.ReportKnown("C14", c14WideFinding, what)
+				knownTail = true
+				return
+			}
+			vh.NoteViolation(t.Name(), "", fmt.Sprintf(`{"case":"c14PinnedTailCase","merged_root":"%s","bulk_root":"%s","same_rows":true}`, merged, bulk))
+			t.Errorf("merged map is not the canonical tree of its rows: %s", what)
+		}
+	})
+	_ = knownTail
 	vh.Check(t, "merge", 2400, 2000, func(rt *rapid.T) { c14Case(rt, rec, false) })
 	recW := vh.NewRecorder("C14", "wide", "exploration", c14Rule,
 		"wide-row part: same oracle; rows padded so that a leaf holds 6-15 rows")
